@@ -238,6 +238,11 @@ func c07Alphabet(s *sessSys) []sessReq {
 		}
 		for _, x := range s.m.live(c) {
 			add("del", sessReq{sReq: sReq{Kind: kDel, Conn: c}, Sess: x.Idx})
+			if c == 0 && x.pdr(1) != nil && x.pdr(1).ChoseTEID {
+				// the PDR that owns the UP-chosen TEID is removed (accepted), or removed by a request that is then refused
+				add("mod-remove-choose-pdr", sessReq{sReq: sReq{Kind: kMod, Conn: c, RemovePDR: []uint16{1}}, Sess: x.Idx})
+				add("mod-remove-choose-pdr-then-unknown-far", sessReq{sReq: sReq{Kind: kMod, Conn: c, RemovePDR: []uint16{1}, RemoveFAR: []uint32{99}}, Sess: x.Idx})
+			}
 		}
 	}
 	return out
@@ -272,6 +277,15 @@ func c07Oracle(c *stepCtx) {
 						s.violation("c07:teid-reused", fmt.Sprintf("TEID %#x chosen for two live PDRs", p.TEID))
 					}
 				}
+			}
+		}
+	}
+	// the generator's books cover the live set at every step: a live UP-chosen TEID that the generator considers free
+	// is handed to a second user once the 32-bit cursor comes round
+	for _, o := range s.m.live(-1) {
+		for _, q := range o.PDRs {
+			if q.ChoseTEID && q.TEID != 0 && !s.in.u.fteidGenerator.IsAllocated(q.TEID) {
+				s.violation("c07:live-teid-free:after="+c.req.Label, fmt.Sprintf("TEID %#x is still programmed for a live PDR but the generator considers it free (after %s)", q.TEID, c.req.Label))
 			}
 		}
 	}
